@@ -458,6 +458,9 @@ type c19WasmCase struct {
 }
 
 func wasmExecNode() (node, script string, ok bool) {
+	if os.Getenv("VERIF_NO_NODE") != "" { // to exercise the path taken on machines without node
+		return "", "", false
+	}
 	node, err := exec.LookPath("node")
 	if err != nil {
 		return "", "", false
